@@ -154,8 +154,8 @@ def _c09_wordcount_stage():
 
 PROPS["C09"] = doc_prop(
     "C09",
-    quick=[bfs("MC_C09", "C09_quick"), bfs("MC_C09", "C09_tables")],
-    thorough=[bfs("MC_C09", "C09_thorough"), bfs("MC_C09", "C09_tables")],
+    quick=[bfs("MC_C09", "C09_quick"), bfs("MC_C09", "C09_tables"), bfs("MC_C09", "C09_items")],
+    thorough=[bfs("MC_C09", "C09_thorough"), bfs("MC_C09", "C09_tables"), bfs("MC_C09", "C09_items")],
     sample_quick=16000, sample_thorough=300000,
     rule="cases = documents over all element kinds, plus layout / data tables with text, inline elements and images in their cells; "
          "non-trivial = the run produced output words",
@@ -200,6 +200,15 @@ for _f in sorted(_glob.glob(_os.path.join(_os.path.dirname(_os.path.abspath(__fi
     _m = _importlib.import_module(_os.path.splitext(_os.path.basename(_f))[0])
     PROPS.update(_m.PROPS)
     EXTRA_TEXT.update(getattr(_m, "TEXT", {}))
+
+def _c09_strata(c):
+    """sampling strata of the C09 documents: which generator family, and whether an inline element sits among the texts"""
+    ks = [n["k"] for n in c.get("nodes", [])]
+    fam = "items" if ks and ks[0] == "UL" else ("tables" if any(k in ("LT", "DT") for k in ks) else "other")
+    return fam + ("+inline" if any(k in ("INL", "A") for k in ks) else "")
+
+
+[_s for _s in PROPS["C09"]["stages"] if _s.get("name", "main") == "main"][0]["stratify"] = _c09_strata
 
 # C09, word-count clause: title-less text-only pages with and without unlikely subtrees on both sides of the
 # two-pass threshold (the pages of C20), judged by C09_WordCountMatchesText in CallsTrace
